@@ -176,12 +176,72 @@ def _joins():
     return out
 
 
+def _forms():
+    """Flat menu of special syntactic forms (keyword-introduced arguments, type spellings, predicate and operator spellings,
+    literal spellings, accessors, CTE / table modifiers): every form alone, and the expression forms also under NOT / in a CAST."""
+    ex = {
+        "interval": ["INTERVAL '1' DAY", "INTERVAL 1 DAY", "INTERVAL '1 day'", "INTERVAL '1-2' YEAR TO MONTH", "INTERVAL '1' HOUR TO SECOND", "INTERVAL '3 04:05' DAY TO MINUTE",
+                     "INTERVAL (a) DAY", "INTERVAL a DAY", "INTERVAL '1 year 2 months'", "INTERVAL '-1' DAY", "INTERVAL '1' DAY + INTERVAL '2' HOUR", "d + INTERVAL '1' MONTH",
+                     "INTERVAL '1.5' SECOND", "INTERVAL '2' WEEK", "INTERVAL '1' QUARTER", "INTERVAL 1 DAY * 2"],
+        "extract": ["EXTRACT(YEAR FROM d)", "EXTRACT(EPOCH FROM ts)", "EXTRACT(DOW FROM d)", "EXTRACT(week FROM d)", "EXTRACT(TIMEZONE_HOUR FROM ts)", "EXTRACT(MILLISECOND FROM ts)",
+                    "DATE_PART('year', d)", "DATE_TRUNC('day', ts)", "DATE_TRUNC('week', d)"],
+        "substring": ["SUBSTRING(s FROM 2)", "SUBSTRING(s FROM 2 FOR 3)", "SUBSTRING(s, 2, 3)", "SUBSTR(s, 2)", "SUBSTRING(s FOR 3)", "LEFT(s, 2)", "RIGHT(s, 2)"],
+        "overlay": ["OVERLAY(s PLACING 'x' FROM 2)", "OVERLAY(s PLACING 'x' FROM 2 FOR 3)"],
+        "trim": ["TRIM(s)", "TRIM(LEADING 'x' FROM s)", "TRIM(TRAILING FROM s)", "TRIM(BOTH FROM s)", "TRIM('x' FROM s)", "TRIM(s, 'x')", "LTRIM(s, 'x')", "RTRIM(s)"],
+        "position": ["POSITION('x' IN s)", "STRPOS(s, 'x')", "LOCATE('x', s, 2)", "INSTR(s, 'x')", "CHARINDEX('x', s)"],
+        "pred": ["a IS DISTINCT FROM b", "a IS NOT DISTINCT FROM b", "s LIKE 'a%' ESCAPE '!'", "s NOT LIKE 'a'", "s ILIKE 'a'", "s SIMILAR TO 'a'", "s RLIKE 'a'", "s REGEXP 'a'", "s ~ 'a'",
+                 "s GLOB 'a'", "a BETWEEN SYMMETRIC 1 AND 2", "a NOT BETWEEN 1 AND 2", "a IN (SELECT a FROM u)", "a = ANY (SELECT a FROM u)", "a > ALL (ARRAY[1, 2])", "s LIKE ANY ('a', 'b')",
+                 "EXISTS (SELECT 1)", "a IS TRUE", "a IS NOT FALSE", "a IS UNKNOWN", "(a, b) = (1, 2)", "(a, b) IN ((1, 2))", "a <=> b", "a NOT IN (1, 2)", "NOT a IN (1, 2)", "a ISNULL",
+                 "a NOTNULL", "a IS NOT NULL", "NOT a IS NULL", "a <> b", "a != b", "a == b", "s LIKE 'a' OR s LIKE 'b' AND a", "a IN (1)", "a IN ()", "s IS JSON", "a @> b", "a <@ b", "a && b"],
+        "tz": ["ts AT TIME ZONE 'UTC'", "ts AT TIME ZONE 'UTC' AT TIME ZONE 'x'", "CAST(ts AS DATE) AT TIME ZONE 'UTC'", "s COLLATE \"C\"", "s COLLATE utf8_bin", "s COLLATE \"C\" = 'a'"],
+        "nested": ["ARRAY[1, 2]", "[1, 2]", "ARRAY(SELECT a FROM u)", "{'a': 1}", "STRUCT(1 AS a)", "MAP(ARRAY['a'], ARRAY[1])", "ROW(1, 2)", "(1, 2)", "arr[1:2]", "arr[1]", "m['k']", "s.f.g",
+                   "a -> 'k'", "a ->> 'k'", "a #> '{a}'", "a ? 'k'", "a || b", "arr[1][2]", "(arr)[1]", "ARRAY[1, 2][1]", "ARRAY[[1], [2]]", "STRUCT(1, 2).a", "a -> 'k' ->> 'j'", "x:y.z", "x:y::INT"],
+        "call": ["f(a => 1)", "f(a := 1)", "GENERATE_SERIES(1, 3)", "COALESCE(a)", "IF(a, 1, 2)", "IIF(a, 1, 2)", "NULLIF(a, 1)", "GREATEST(a, b)", "LEAST(a, b, 1)", "DATE_ADD(d, INTERVAL 1 DAY)",
+                 "DATEDIFF(day, d, d2)", "DATE_DIFF(d, d2, DAY)", "TO_CHAR(ts, 'YYYY')", "CONCAT(a, b)", "CONCAT_WS(',', a, b)", "CURRENT_TIMESTAMP(3)", "CURRENT_TIMESTAMP", "LOCALTIME",
+                 "NOW()", "COUNT(*)", "COUNT(DISTINCT a, b)", "ROUND(a, 2)", "LOG(2, a)", "LOG(a)", "LN(a)", "POWER(a, 2)", "SPLIT_PART(s, ',', 1)", "REGEXP_REPLACE(s, 'a', 'b', 'g')",
+                 "JSON_EXTRACT(j, '$.a')", "JSON_OBJECT('a', 1)", "ANY_VALUE(a)", "XMLELEMENT(NAME x)", "CAST(a AS INT) + 1", "db.f(a)", "f(DISTINCT a)", "f(ALL a)", "f()", "f(*)"],
+        "ops": ["x::INT::TEXT", "-(-a)", "- -a", "~a", "a ^ b", "a ** b", "a DIV b", "a % b", "a MOD b", "a << 1", "a & b | c", "a // b", "a # b", "+a", "a - -b", "a - (b - c)", "a / (b * c)",
+                "(a + b) * c", "a * (b + c)", "-a ** 2", "(-a) ** 2", "NOT (a AND b)", "NOT a AND b", "a = b = c", "(a = b) = c", "a < b < c", "a IS NULL = b", "a || b || c", "a || (b || c)",
+                "a + b || c", "CASE a WHEN 1 THEN 'x' END", "CASE WHEN a THEN 1 WHEN b THEN 2 ELSE 3 END", "CASE WHEN a THEN 1 END + 1", "(CASE WHEN a THEN 1 END)", "a XOR b", "a OR b AND c XOR d"],
+        "lit": ["1e3", "1.5E-3", ".5", "5.", "0x1F", "1_000", "'a' 'b'", "N'x'", "E'\\n'", "B'101'", "X'1F'", "DATE '2020-01-01'", "TIME '01:02:03'", "TIMESTAMP '2020-01-01 00:00:00'", "TRUE", "NULL",
+                "$1", "?", ":name", "@var", "${x}", "'it''s'", "''", "1.0", "-1", "9223372036854775808", "1.", "1e-2", "TIMESTAMP WITH TIME ZONE '2020-01-01 00:00:00+00'", "U&'d\\0061t'", "$$x$$", "r'a\\b'"],
+    }
+    types = ["DECIMAL(10, 2)", "NUMERIC(5)", "VARCHAR(10)", "CHAR(3)", "TIMESTAMP WITH TIME ZONE", "TIMESTAMP WITHOUT TIME ZONE", "TIMESTAMP(3)", "TIME WITH TIME ZONE", "DOUBLE PRECISION",
+             "ARRAY<INT>", "INT[]", "INT[3]", "STRUCT<a INT, b TEXT>", "MAP<TEXT, INT>", "INTERVAL DAY TO SECOND", "INTERVAL", "BIGINT UNSIGNED", "NVARCHAR(MAX)", "BYTEA", "UUID", "JSON", "JSONB",
+             "TINYINT", "REAL", "FLOAT(24)", "BOOLEAN", "DATE", "TEXT", "BLOB", "INT NOT NULL", "CHARACTER VARYING(5)", "NUMBER(38, 0)", "STRING", "INT64", "FLOAT64", "DATETIME", "TIMESTAMPTZ",
+             "TIMESTAMP_NTZ", "VARIANT", "GEOGRAPHY", "ENUM('a', 'b')", "DECIMAL", "VARCHAR", "BIT(3)", "VARBINARY(10)", "my_type", "my_schema.my_type", "ROW(a INT, b TEXT)", "ARRAY(INT)", "NULLABLE(INT)",
+             "LOWCARDINALITY(STRING)", "MAP(TEXT, INT)", "INT ARRAY", "TIMESTAMP(3) WITH TIME ZONE", "DOUBLE", "SMALLINT", "HUGEINT", "SERIAL", "MONEY", "XML", "INET", "TSRANGE", "VECTOR(3)"]
+    out = []
+    for fam, items in ex.items():
+        for i, e in enumerate(items):
+            out.append((f"SELECT {e} FROM t", (f"form.{fam}.{i}",)))
+            out.append((f"SELECT NOT {e}, CAST({e} AS TEXT), ({e}) IS NULL FROM t WHERE {e} GROUP BY {e} ORDER BY {e}", (f"form.{fam}.{i}", "form.in_contexts")))
+    for i, ty in enumerate(types):
+        for j, tmpl in enumerate(("SELECT CAST(a AS {t}) FROM t", "SELECT a::{t} FROM t", "SELECT TRY_CAST(a AS {t}) FROM t", "CREATE TABLE t (a {t})", "SELECT CAST(a AS {t}) + 1, CAST(CAST(a AS {t}) AS TEXT) FROM t")):
+            out.append((tmpl.format(t=ty), (f"type.{i}",)))
+    tabs = ["WITH c AS MATERIALIZED (SELECT 1 AS a) SELECT * FROM c", "WITH c AS NOT MATERIALIZED (SELECT 1 AS a) SELECT * FROM c", "WITH RECURSIVE c(n) AS (SELECT 1 UNION ALL SELECT n + 1 FROM c WHERE n < 3) SELECT * FROM c",
+            "WITH RECURSIVE c AS (SELECT 1 AS n UNION ALL SELECT n + 1 FROM c) SELECT n FROM c LIMIT 3", "WITH a AS (SELECT 1), b AS (SELECT * FROM a) SELECT * FROM b", "VALUES (1, 2), (3, 4)", "SELECT * FROM (VALUES (1)) AS v(a)",
+            "SELECT * FROM t /*+ hint */", "SELECT /*+ BROADCAST(t) */ a FROM t", "SELECT TOP 3 a FROM t", "SELECT a FROM t FETCH FIRST 3 ROWS ONLY", "SELECT a FROM t LIMIT 3, 2", "SELECT a FROM t LIMIT ALL", "SELECT a FROM t OFFSET 2 ROWS",
+            "SELECT a FROM t ORDER BY a NULLS FIRST, b DESC NULLS LAST", "SELECT a FROM t ORDER BY a COLLATE \"C\"", "SELECT a FROM t ORDER BY 1 USING <", "SELECT DISTINCT ON (a) a, b FROM t", "SELECT ALL a FROM t", "SELECT a AS \"x y\", b \"q\" FROM t",
+            "SELECT t.* EXCLUDE (a) FROM t", "SELECT * REPLACE (a + 1 AS a) FROM t", "SELECT * EXCEPT (a) FROM t", "SELECT COLUMNS('a.*') FROM t", "SELECT a FROM t WHERE a = 1 FOR UPDATE OF t NOWAIT", "SELECT a FROM t FOR SHARE SKIP LOCKED",
+            "SELECT a INTO u FROM t", "SELECT a FROM t GROUP BY a WITH TOTALS", "SELECT a FROM t SETTINGS max_threads = 1", "SELECT a FROM t FINAL", "SELECT a FROM t AS OF TIMESTAMP '2020-01-01'", "SELECT a FROM ONLY t", "SELECT a FROM t PARTITION (p1)",
+            "SELECT a FROM t USE INDEX (i)", "SELECT a FROM t WITH (NOLOCK)", "SELECT a FROM t@snap", "TABLE t", "FROM t SELECT a", "SELECT a FROM t WHERE a IN (SELECT a FROM u) AND EXISTS (SELECT 1 FROM v WHERE v.a = t.a)",
+            "EXPLAIN SELECT 1", "DESCRIBE t", "SHOW TABLES", "USE db", "SET x = 1", "TRUNCATE TABLE t", "COMMENT ON TABLE t IS 'c'", "GRANT SELECT ON t TO u", "BEGIN", "COMMIT", "ROLLBACK", "ANALYZE t", "VACUUM t", "CALL p(1)",
+            "CREATE SCHEMA IF NOT EXISTS s", "CREATE SEQUENCE s START WITH 1 INCREMENT BY 2", "CREATE FUNCTION f(a INT) RETURNS INT AS 'SELECT 1'", "CREATE TABLE t (a INT) PARTITION BY RANGE (a)", "CREATE TABLE t (a INT, b INT GENERATED ALWAYS AS (a + 1) STORED)",
+            "CREATE TABLE t (a INT DEFAULT 1 NOT NULL CHECK (a > 0), PRIMARY KEY (a))", "CREATE TABLE t (a INT) WITH (x = 1)", "CREATE TABLE t (a INT) COMMENT = 'c'", "CREATE TEMPORARY VIEW v AS SELECT 1", "CREATE MATERIALIZED VIEW v AS SELECT 1",
+            "CREATE OR REPLACE TABLE t AS SELECT 1 AS a", "CREATE TABLE t AS SELECT 1 AS a WITH NO DATA", "CREATE UNLOGGED TABLE t (a INT)", "CREATE EXTERNAL TABLE t (a INT) LOCATION 's3://x'", "CREATE TABLE t (a INT) ENGINE = MergeTree ORDER BY a",
+            "CREATE TABLE t (a INT COLLATE \"C\")", "CREATE TABLE t (a INT REFERENCES u (a) ON DELETE CASCADE)", "CREATE TABLE t (a INT, UNIQUE (a), CHECK (a > 0))", "CREATE TABLE IF NOT EXISTS s.t (LIKE u INCLUDING ALL)"]
+    for i, q in enumerate(tabs):
+        out.append((q, (f"stmt.{i}",)))
+    return out
+
+
 @functools.lru_cache(None)
 def clause_statements() -> tuple:
     """(sql, tags) for every statement of the clause-subset spaces (written in the common SQL spelling; each dialect parses what
     it can - statements a dialect rejects are outside its space)."""
     seen, out = set(), []
-    for gen in (_select, _dml, _ddl, _setops, _windows, _joins):
+    for gen in (_select, _dml, _ddl, _setops, _windows, _joins, _forms):
         for sql, tags in gen():
             if sql not in seen:
                 seen.add(sql)
